@@ -1160,3 +1160,126 @@ Proof.
   change 0%nat with (tp []). rewrite (ranges_from_idx cls objs []), (filter_idx cls objs []). cbn [app length].
   rewrite combine_map_same. unfold idxs. apply map_ext. intros k. reflexivity.
 Qed.
+
+(* ---- the w-tilde assembly as a list of tagged blocks ---- *)
+Definition place (objs : list (@lobj ROps)) (C : @mat ROps) (t : (nat * nat) * @mat ROps) : @mat ROps :=
+  @set_block ROps C (off objs (fst (fst t))) (off objs (snd (fst t))) (snd t).
+Lemma fold_left_map {A B C} (f : A -> B -> A) (g : C -> B) l a :
+  fold_left f (map g l) a = fold_left (fun a x => f a (g x)) l a.
+Proof. revert a. induction l; intros; cbn; auto. Qed.
+Lemma pairs_lt_map {A B} (f : A -> B) l : pairs_lt (map f l) = map (fun p => (f (fst p), f (snd p))) (pairs_lt l).
+Proof. induction l as [|a l IH]; cbn; [reflexivity|]. rewrite map_app, IH, !map_map. reflexivity. Qed.
+Lemma list_prod_map {A B C D} (f : A -> B) (g : C -> D) l l' :
+  list_prod (map f l) (map g l') = map (fun p => (f (fst p), g (snd p))) (list_prod l l').
+Proof. induction l as [|a l IH]; cbn; [reflexivity|]. rewrite map_app, IH, !map_map. reflexivity. Qed.
+
+Section Assembly.
+  Variables (c : @convolver ROps) (pre : list R) (idx lens : list nat) (objs : list (@lobj ROps)) (s : list R).
+  Definition diagB (k : nat) : @mat ROps := @curv_preload ROps pre idx lens (enc_of (ob objs k)) (params (ob objs k)).
+  Definition offB (kl : nat * nat) : @mat ROps :=
+    @off_diag ROps pre idx lens (enc_of (ob objs (fst kl))) (params (ob objs (fst kl))) (enc_of (ob objs (snd kl))) (params (ob objs (snd kl))).
+  Definition mfB (kl : nat * nat) : @mat ROps :=
+    @off_mapper_func ROps (enc_of (ob objs (fst kl))) (params (ob objs (fst kl))) (@div_rows_sq ROps (opmat c (ob objs (snd kl))) s) (image_frames c).
+  Definition ffB (kl : nat * nat) : @mat ROps :=
+    @dotTN ROps (@div_rows ROps (opmat c (ob objs (fst kl))) s) (@div_rows ROps (opmat c (ob objs (snd kl))) s).
+  Definition wt_blocks : list ((nat * nat) * @mat ROps) :=
+    let Im := idxs is_mapper objs in let If := idxs is_func objs in
+    map (fun k => ((k, k), diagB k)) Im ++ map (fun kl => (kl, offB kl)) (pairs_lt Im) ++
+    (if existsb is_func objs then map (fun kl => (kl, mfB kl)) (list_prod Im If) ++ map (fun kl => (kl, ffB kl)) (list_prod If If)
+     else []).
+  Lemma F_wt_pre_blocks :
+    @F_wt_pre ROps c pre idx lens objs s = fold_left (place objs) wt_blocks (@zmat ROps (tp objs) (tp objs)).
+  Proof.
+    unfold F_wt_pre, wt_blocks. rewrite total_params_tp. rewrite !entries_idx.
+    rewrite pairs_lt_map, !list_prod_map.
+    destruct (existsb is_func objs); rewrite !fold_left_app, ?fold_left_map; reflexivity.
+  Qed.
+  (* the content of a block is a function of its tag *)
+  Definition Gf (kl : nat * nat) : @mat ROps :=
+    if is_mapper (ob objs (fst kl)) then
+      (if is_mapper (ob objs (snd kl)) then (if Nat.eqb (fst kl) (snd kl) then diagB (fst kl) else offB kl) else mfB kl)
+    else ffB kl.
+End Assembly.
+
+Definition tag_eqb (t1 t2 : nat * nat) : bool := Nat.eqb (fst t1) (fst t2) && Nat.eqb (snd t1) (snd t2).
+Lemma tag_eqb_true t1 t2 : tag_eqb t1 t2 = true <-> t1 = t2.
+Proof.
+  unfold tag_eqb. destruct t1, t2. cbn. rewrite andb_true_iff, !Nat.eqb_eq. split; [intros [-> ->]; auto | intros H; inversion H; auto].
+Qed.
+Definition blk_ok (objs : list (@lobj ROps)) (G : nat * nat -> @mat ROps) (t : (nat * nat) * @mat ROps) : Prop :=
+  (fst (fst t) < length objs)%nat /\ (snd (fst t) < length objs)%nat /\ snd t = G (fst t) /\
+  shape (params (ob objs (fst (fst t)))) (params (ob objs (snd (fst t)))) (snd t).
+
+Lemma place_cell objs G (C : @mat ROps) t i j la lb : shape (tp objs) (tp objs) C -> blk_ok objs G t ->
+  (i < length objs)%nat -> (j < length objs)%nat -> (la < params (ob objs i))%nat -> (lb < params (ob objs j))%nat ->
+  shape (tp objs) (tp objs) (place objs C t) /\
+  mget (place objs C t) (off objs i + la) (off objs j + lb) =
+    if tag_eqb (fst t) (i, j) then mget (snd t) la lb else mget C (off objs i + la) (off objs j + lb).
+Proof.
+  intros HS (Hk & Hl & _ & HB) Hi Hj Hla Hlb. destruct t as [[k l] Bk]. cbn [fst snd] in *. unfold place. cbn [fst snd].
+  destruct (set_block_spec (tp objs) C Bk (off objs k) (off objs l) _ _ HS HB (off_bound objs k Hk) (off_bound objs l Hl)) as [S1 S2].
+  split; [exact S1|]. rewrite S2. unfold tag_eqb. cbn [fst snd].
+  match goal with |- (if ?c then _ else _) = _ => destruct c eqn:X end.
+  - apply andb_true_iff in X. destruct X as [X1 X2]. apply andb_true_iff in X1, X2.
+    destruct X1 as [A1 A2]. destruct X2 as [B1 B2]. apply Nat.leb_le in A1, B1. apply Nat.ltb_lt in A2, B2.
+    assert (k = i) by (eapply locate_range; eauto). assert (l = j) by (eapply locate_range; eauto). subst k l.
+    rewrite !Nat.eqb_refl. cbn [andb]. f_equal; lia.
+  - destruct (Nat.eqb k i) eqn:E1; cbn [andb]; auto. destruct (Nat.eqb l j) eqn:E2; auto.
+    apply Nat.eqb_eq in E1, E2. subst k l. exfalso.
+    assert (Nat.leb (off objs i) (off objs i + la) && Nat.ltb (off objs i + la) (off objs i + params (ob objs i)) = true) as Y1.
+    { apply andb_true_iff. split; [apply Nat.leb_le | apply Nat.ltb_lt]; lia. }
+    assert (Nat.leb (off objs j) (off objs j + lb) && Nat.ltb (off objs j + lb) (off objs j + params (ob objs j)) = true) as Y2.
+    { apply andb_true_iff. split; [apply Nat.leb_le | apply Nat.ltb_lt]; lia. }
+    rewrite Y1, Y2 in X. discriminate.
+Qed.
+Lemma blocks_cell objs G bl i j la lb : forall (C : @mat ROps), shape (tp objs) (tp objs) C -> (forall t, In t bl -> blk_ok objs G t) ->
+  (i < length objs)%nat -> (j < length objs)%nat -> (la < params (ob objs i))%nat -> (lb < params (ob objs j))%nat ->
+  shape (tp objs) (tp objs) (fold_left (place objs) bl C) /\
+  mget (fold_left (place objs) bl C) (off objs i + la) (off objs j + lb) =
+    if existsb (fun t => tag_eqb (fst t) (i, j)) bl then mget (G (i, j)) la lb else mget C (off objs i + la) (off objs j + lb).
+Proof.
+  induction bl as [|t bl IH]; intros C HS Hok Hi Hj Hla Hlb; cbn [fold_left existsb]; [split; auto|].
+  destruct (place_cell objs G C t i j la lb HS (Hok t (or_introl eq_refl)) Hi Hj Hla Hlb) as [P1 P2].
+  destruct (IH (place objs C t) P1 (fun t' H => Hok t' (or_intror H)) Hi Hj Hla Hlb) as [Q1 Q2].
+  split; [exact Q1|]. rewrite Q2.
+  destruct (existsb (fun t0 => tag_eqb (fst t0) (i, j)) bl); [now rewrite orb_true_r|]. rewrite orb_false_r. rewrite P2.
+  destruct (tag_eqb (fst t) (i, j)) eqn:X; [|reflexivity].
+  apply tag_eqb_true in X. destruct (Hok t (or_introl eq_refl)) as (_ & _ & HG & _). rewrite HG, X. reflexivity.
+Qed.
+
+Lemma pairs_lt_filter_seq (p : nat -> bool) n : forall a x y,
+  In (x, y) (pairs_lt (filter p (seq a n))) <-> (x < y)%nat /\ In x (filter p (seq a n)) /\ In y (filter p (seq a n)).
+Proof.
+  induction n as [|n IH]; intros a x y; cbn [seq filter].
+  - cbn. tauto.
+  - assert (Hgt : forall z, In z (filter p (seq (S a) n)) -> (a < z)%nat).
+    { intros z Hz. apply filter_In in Hz. destruct Hz as [Hz _]. apply in_seq in Hz. lia. }
+    destruct (p a); [|apply IH]. cbn [pairs_lt]. rewrite in_app_iff, in_map_iff, IH. cbn [In]. split.
+    + intros [[z [Hz Hin]]|(H1 & H2 & H3)].
+      * inversion Hz; subst. pose proof (Hgt _ Hin). auto.
+      * auto.
+    + intros (H1 & [H2|H2] & [H3|H3]); subst.
+      * lia.
+      * left. exists y. auto.
+      * pose proof (Hgt _ H2). lia.
+      * right. auto.
+Qed.
+Lemma idxs_In cls objs k : In k (idxs cls objs) <-> (k < length objs)%nat /\ cls (ob objs k) = true.
+Proof. unfold idxs. rewrite filter_In, in_seq. split; intros [H1 H2]; split; auto; lia. Qed.
+
+Lemma shape_transpose (M : @mat ROps) n p : shape n p M -> (0 < n)%nat -> shape p n (transpose M).
+Proof.
+  intros [HL HR] Hn. unfold transpose.
+  assert (ncols M = p) as -> by (unfold ncols; rewrite hd_nth; apply HR; lia).
+  split; [now rewrite map_length, seq_length|]. intros a Ha. rewrite nth_map_seq by exact Ha. now rewrite map_length, seq_length.
+Qed.
+Lemma shape_madd (A B : @mat ROps) n p : shape n p A -> shape n p B -> shape n p (madd A B).
+Proof.
+  intros [HA1 HA2] [HB1 HB2]. unfold madd. rewrite (combine_nth_map A B [] [] n) by assumption. rewrite map_map.
+  split; [now rewrite map_length, seq_length|]. intros a Ha. rewrite nth_map_seq by exact Ha. cbn [fst snd].
+  unfold vadd. rewrite map_length, combine_length. rfix. rewrite HA2, HB2 by auto. apply Nat.min_id.
+Qed.
+Lemma shape_off_diag pre idx lens e0 P0 e1 P1 : (0 < P1)%nat -> shape P0 P1 (@off_diag ROps pre idx lens e0 P0 e1 P1).
+Proof.
+  intros H. unfold off_diag. apply shape_madd; [apply shape_off_preload|]. apply shape_transpose; [apply shape_off_preload | exact H].
+Qed.
